@@ -22,6 +22,7 @@ def plan(tier, seed):
     k = 40 if tier == "quick" else 800
     shards += [{"kind": "variants", "seed": seed, "shard": i, "n": 250} for i in range(k)]
     shards += [{"kind": "corrupt", "seed": seed, "shard": i, "n": 400} for i in range(k)]
+    shards += [{"kind": "mcp", "seed": seed, "shard": i, "n": 40} for i in range(8 if tier == "quick" else 100)]
     shards += [{"kind": "cli", "seed": seed, "shard": i, "n": 25} for i in range(16 if tier == "quick" else 200)]
     return shards
 
@@ -303,11 +304,66 @@ def run_cli(desc):
             "violations": cap_viols(viols), "samples": []}
 
 
+def exec_mcp_parse(texts_and_expected):
+    """One `cgt-tool mcp` session: parse_transactions on each text; returns (violations, answered)."""
+    from ..mcpdrv import Session, call, check_history
+    sess = Session()
+    reqs = [call(f"p{i}", "parse_transactions", {"transactions": t}) for i, (t, _e) in enumerate(texts_and_expected)]
+    sess.send(reqs)
+    sess.wait_for([r["id"] for r in reqs], 60)
+    end = sess.finish()
+    hv, _st, resp = check_history(sess, end)
+    viols = []
+    answered = 0
+    for i, (text, exp) in enumerate(texts_and_expected):
+        a = resp.get(Session.idkey(f"p{i}"))
+        case = {"op": "mcp_parse", "text": text, "expected": [[e["date"], e["ticker"], e["kind"]] if isinstance(e, dict) else list(e) for e in exp]}
+        if a is None:
+            viols.append({"clause": "mcp-request-never-answered", "signature": "mcp:request-never-answered", "detail": f"p{i}", "case": case})
+            continue
+        answered += 1
+        try:
+            body = json.loads(a["result"]["content"][0]["text"])
+            got = [(g["date"], g["ticker"], g["action"]) for g in (body["transactions"] if isinstance(body, dict) else body)]
+        except Exception:
+            viols.append({"clause": "valid-variant-rejected", "signature": "mcp:valid-variant-rejected",
+                          "detail": json.dumps(a.get("error") or a.get("result"))[:240], "case": case})
+            continue
+        want = [tuple(x) for x in case["expected"]]
+        if got != want:
+            viols.append({"clause": "mcp-parse-differs", "signature": "mcp:parse-differs",
+                          "detail": f"{len(got)} transactions read, {len(want)} written", "case": case})
+    return viols, answered
+
+
+def run_mcp(desc):
+    """The same lexical variants through the MCP tool parse_transactions (the text travels inside a JSON string)."""
+    rng = rng_for(PROP, desc["seed"], "mcp", desc["shard"])
+    cnt, viols, hashes = Counter(), [], set()
+    batch = []
+    for _ in range(desc["n"]):
+        txs = gen_txs(rng)[:8]
+        text, exp, _line_of, _tl, pl = dsl.render(rng, txs)
+        if text.lstrip().startswith("["):
+            continue
+        batch.append((text, exp))
+        hashes.add(sha(text)[:16])
+        if "\\n" in text or "\\r" in text:
+            cnt["mcp_texts_with_backslash_escape_lookalikes_in_comments"] += 1
+    vs, answered = exec_mcp_parse(batch)
+    cnt["mcp_parse_answers"] += answered
+    viols += vs
+    return {"evaluations": len(batch), "nontrivial_hashes": hashes, "counters": cnt, "violations": cap_viols(viols), "samples": []}
+
+
 def run_shard(desc):
-    return {"enum": run_enum, "variants": run_variants, "corrupt": run_corrupt, "cli": run_cli}[desc["kind"]](desc)
+    return {"enum": run_enum, "variants": run_variants, "corrupt": run_corrupt, "cli": run_cli, "mcp": run_mcp}[desc["kind"]](desc)
 
 
 def replay(case):
+    if case.get("op") == "mcp_parse":
+        vs, answered = exec_mcp_parse([(case["text"], case["expected"])])
+        return vs, {"answered": answered}
     if case.get("op") == "parse_multi":
         r = run_multi(case["parts"])
         return judge_multi(r, case["expected"]), {"exit": r["exit"], "stderr": r["stderr"][:300], "stdout": r["stdout"][:600]}
@@ -331,7 +387,7 @@ def finalize(total, tier, seed):
         "ticker case {upper, lower, mixed} x spacing {single, wide}"]
 
 
-THRESHOLDS = {"cli_multi_file_nonfinal_without_final_newline": 150, "enumerated_single_line_files": 3384, "variant_files": 2500, "corruptions": 4000,
+THRESHOLDS = {"mcp_parse_answers": 200, "mcp_texts_with_backslash_escape_lookalikes_in_comments": 20, "cli_multi_file_nonfinal_without_final_newline": 150, "enumerated_single_line_files": 3384, "variant_files": 2500, "corruptions": 4000,
               "placement_CR": 300, "placement_CRLF": 300, "placement_no_final_newline": 500,
               "placement_trailing_comment_after_number": 300, "placement_trailing_comment_after_word": 300,
               "corruption_delete_required": 200, "corruption_currency_garbage": 100, "corruption_date_calendar": 200}
